@@ -321,6 +321,19 @@ def run_class_level(st: infra.Stats):
             cname = f"S{k}"
             src.append(class_src(cname, 3, 1, field_spec, class_order="order({%r: %s})" % (target, spec_src(ov))))
             metas.append((cname, names4, eff, f"class order({{{target}: {ov}}}) fields {field_spec}"))
+    # serialized methods declared on a base class and on a derived class: declaration order = base first
+    names_h = ["f0", "f1", "m0", "m1"]
+    for spec in ({}, {"m1": ("v", -1)}, {"m0": ("v", 999)}, {"f1": ("after", "m0")}, {"m1": ("before", "m0")}, {"m0": ("after", "f0")}, {"f0": ("after", "m1")}):
+        if not well_founded(names_h, spec):
+            continue
+        for split in ((["f0", "m0"], ["f1", "m1"]), (["f0", "f1", "m0"], ["m1"]), (["m0"], ["f0", "f1", "m1"])):
+            k += 1
+            b, d = f"B{k}", f"S{k}"
+            src.append(class_src(b, 2, 2, spec, own_fields=split[0]))
+            src.append(class_src(d, 2, 2, spec, base=b, own_fields=split[1]))
+            # fields of the base come first in the dataclass, whatever their index
+            decl = [n for n in split[0] if n.startswith("f")] + [n for n in split[1] if n.startswith("f")] + [n for n in split[0] if n.startswith("m")] + [n for n in split[1] if n.startswith("m")]
+            metas.append((d, decl, spec, f"methods split between base {split[0]} and derived {split[1]}"))
     mod = exec_source(PRELUDE + "\n".join(src))
     gql = gql_types_of(mod, [m[0] for m in metas])
     if isinstance(gql, Exception):
